@@ -638,6 +638,66 @@ fn kd7_starved_flush_is_completed_by_the_next_call() {
     core::mem::forget(state);
 }
 
+/// zlib.h: "If deflate returns with avail_out == 0, this function must be called again with the same value of the flush
+/// parameter and more output space until the flush is complete (deflate returns with non-zero avail_out)."  A flush whose
+/// output fills the buffer exactly (nothing left pending) is such a return: the repeated call is served (another marker),
+/// not refused as a duplicate; a flush that left room is complete and its repetition without new input is refused (C16, C15).
+#[kani::proof]
+#[kani::unwind(10)]
+#[kani::stub(core::fmt::write, stub_fmt_write)]
+#[kani::stub(core::panicking::panic_nounwind, stub_pn)]
+#[kani::stub(core::panicking::panic_nounwind_fmt, stub_pnf)]
+#[kani::stub(crate::deflate::algorithm::run, stub_run_starved_then_done)]
+#[kani::stub(<[u16]>::fill, stub_fill_zero)]
+fn kd7_flush_that_fills_the_buffer_is_repeated() {
+    let mut w = [0u8; 2 << WB7];
+    let mut p = [0u16; 1 << WB7];
+    let mut h = [0u16; HASH_SIZE];
+    let mut pe = [MaybeUninit::new(0u8); 4 * LB7];
+    let mut sy = [0u8; 3 * LB7];
+    let mut state = typed_state(&mut w, &mut p, &mut h, &mut pe, &mut sy, WB7, LB7, 6, 0, Strategy::Default);
+    state.window_size = 2 << WB7;
+    state.status = Status::Busy;
+    state.last_flush = 0;
+    let mut stream = typed_stream(unsafe { &mut *(&mut state as *mut State) });
+    let flush = match kani::any::<u8>() % 2 {
+        0 => DeflateFlush::SyncFlush,
+        _ => DeflateFlush::FullFlush,
+    };
+    let input = [1u8, 2, 3];
+    let mut out = [0u8; 24];
+    stream.next_in = input.as_ptr() as *mut u8;
+    stream.avail_in = 3;
+    stream.next_out = out.as_mut_ptr();
+    // the block function (stub) completes the block without output of its own; the marker is 5 bytes
+    let space: u32 = kani::any();
+    kani::assume(space >= 2 && space <= 8);
+    stream.avail_out = space;
+    let rc1 = deflate(&mut stream, flush);
+    assert!(rc1 == ReturnCode::Ok && stream.avail_in == 0);
+    let produced1 = (space - stream.avail_out) as usize;
+    assert!(produced1 == Ord::min(space as usize, 5));
+    let filled = stream.avail_out == 0;
+    stream.avail_out = 12;
+    let rc2 = deflate(&mut stream, flush);
+    let produced2 = 12 - stream.avail_out as usize;
+    if filled {
+        assert!(rc2 == ReturnCode::Ok, "the buffer was full: the same flush again is the documented continuation");
+        if space == 5 {
+            assert!(produced2 == 5, "nothing was pending: the repeated flush writes another marker");
+        } else {
+            assert!(produced2 >= 5 - produced1, "the rest of the first marker comes out");
+        }
+    } else {
+        assert!(rc2 == ReturnCode::BufError && produced2 == 0, "the flush was complete: repeating it without input is refused");
+    }
+    kani::cover!(space == 5 && rc2 == ReturnCode::Ok);
+    kani::cover!(space == 3 && rc2 == ReturnCode::Ok);
+    kani::cover!(rc2 == ReturnCode::BufError);
+    core::mem::forget(stream);
+    core::mem::forget(state);
+}
+
 /// A call refused because there is no output space changes nothing: the same call with space then does what it would have
 /// done in the first place (C06 "a buffer-full status is never fatal").
 #[kani::proof]
